@@ -53,6 +53,7 @@ def run_c03(ctx):
     res = l1_both(ctx)
     cp = l2.corpus(ctx)
     l2.c03_cli(ctx, res, cp["structured"], 60 if not ctx.thorough() else 400)
+    l2.c03_objects(ctx, res)
     res.require(["l2:run"], "L2")
     return res
 
@@ -135,6 +136,13 @@ MIRI_SHARDS = {"C12": 4, "C15": 4, "C17": 2}
 
 def run_dbg(ctx):
     return l1_both(ctx, miri_shards=MIRI_SHARDS.get(ctx.pid, 0))
+
+
+def run_c17(ctx):
+    import l2
+    res = run_dbg(ctx)
+    l2.c17_cli(ctx, res)
+    return res
 
 
 def run_c16(ctx):
@@ -231,7 +239,7 @@ PROPS = {
         "assumptions": DBG_ASSUME,
     },
     "C17": {
-        "run": run_dbg,
+        "run": run_c17,
         "level": "exploration",
         "design_ref": "DESIGN.md section 4 C17",
         "level_text": "Runtime monitor over generated programs in randomised layouts: `assembly <addr>` for every address of the image and two beyond each end (minimal mode, captured through the debugger-output tee) must print exactly the source text 'mnemonic/directive through last operand' recorded by the renderer for the statement that produced that word (nothing for non-statement addresses); `goto <label+-k>` and `print <label+-k>` must resolve to the address the reference assembler gives the labelled statement.",
